@@ -896,6 +896,91 @@ def thread_bools(facts):
     facts.threaded = n_threaded
 
 
+def thread_enums(facts):
+    """A helper that *returns* an enum (`fn fat_mirroring(&self) -> FatMirroring`, replacing a pair of predicates) and was
+    inlined leaves `R = Variant{..}` in each of its arms, a join, and a `match` on the discriminant of R in the caller:
+    the connection between the helper's condition and the caller's arm is lost at the join. Jump threading, as for
+    materialised bools: a block that stores a variant into the enum local is sent directly to the arm that variant selects,
+    through a copy of the side-effect-free statements in between. Only in functions something was inlined into."""
+    n = 0
+    touched = {c for lst in (getattr(facts, 'inlined', {}) or {}).values() for c, _b in lst}
+    for fn in facts.fns.values():
+        if fn.crate not in ('fatfs', 'witness') or not fn.blocks or fn.name not in touched:
+            continue
+        changed = False
+        for si in range(len(fn.blocks)):
+            S = fn.blocks[si]
+            t = S['term']
+            if S.get('cleanup') or t['k'] != 'switch':
+                continue
+            d = t['discr'].get('c') or t['discr'].get('m')
+            if d is None or d['p']:
+                continue
+            src = None
+            for s_ in S['stmts']:
+                if s_['k'] == 'assign' and not s_['lhs']['p'] and s_['lhs']['l'] == d['l']:
+                    src = s_['rv']
+            if src is None or src['k'] != 'discr' or src['p']['p']:
+                continue
+
+            def pure(stmts):
+                return all(x['k'] in ('dead', 'live', 'nop') or (x['k'] == 'assign' and x['rv']['k'] in
+                                                                    ('use', 'cast', 'unop', 'binop', 'ref', 'discr', 'agg'))
+                           for x in stmts)
+            if not pure(S['stmts']):
+                continue
+            # walk up: (block whose goto leads here, enum local to look for there, statements to replay)
+            work = [(si, src['p']['l'], list(S['stmts']), 0)]
+            seen = set()
+            while work:
+                cur, E, replay, depth = work.pop()
+                if (cur, E) in seen or depth > 4:
+                    continue
+                seen.add((cur, E))
+                preds = [pi for pi, P in enumerate(fn.blocks) if not P.get('cleanup') and P['term']['k'] == 'goto'
+                         and P['term'].get('ret') == cur and pi != cur]
+                if cur != si and len(preds) < 1:
+                    continue
+                for pi in preds:
+                    P = fn.blocks[pi]
+                    last = None
+                    for x in P['stmts']:
+                        if x['k'] == 'assign' and x['lhs']['l'] == E:
+                            last = x
+                    if last is None:
+                        if pure(P['stmts']) and len(P['stmts']) <= 12:
+                            work.append((pi, E, list(P['stmts']) + replay, depth + 1))
+                        continue
+                    if last['lhs']['p']:
+                        continue
+                    rv = last['rv']
+                    if rv['k'] == 'use':
+                        pl = rv['a'].get('c') or rv['a'].get('m')
+                        if pl is not None and not pl['p'] and pure(P['stmts']) and len(P['stmts']) <= 12 and \
+                                not any(x['k'] == 'assign' and x['lhs']['l'] == pl['l'] for x in P['stmts']):
+                            work.append((pi, pl['l'], list(P['stmts']) + replay, depth + 1))
+                        continue
+                    if rv['k'] != 'agg' or rv.get('ak') != 'adt' or rv.get('vi') is None:
+                        continue
+                    a = facts.adts.get(rv.get('adt')) or {}
+                    if a.get('kind') != 'enum':
+                        continue
+                    dv = rv['vi']
+                    for v_ in a.get('variants', []):
+                        if v_.get('name') == rv.get('variant') and 'discr' in v_:
+                            dv = v_['discr']
+                    tgt = next((tb for vv, tb in t['targets'] if vv == dv), t['otherwise'])
+                    fn.blocks.append({'cleanup': False, 'stmts': copy.deepcopy(replay),
+                                      'term': {'k': 'goto', 'ret': tgt, 'span': t['span'], 'threaded_from': si}})
+                    P['term'] = dict(P['term'], ret=len(fn.blocks) - 1)
+                    changed = True
+                    n += 1
+        if changed:
+            fn._succ = fn._pred = fn._dom = fn._pdom = fn._reach = None
+            fn.__dict__.pop('_bool_switch_cache', None)
+    facts.threaded_enums = n
+
+
 def fold_const_enums(facts):
     """A helper that takes a field-less enum as a mode parameter (`release(cluster, ChainRelease::Tail)`) and was inlined at
     a call with a literal argument keeps both arms of its `match` in the caller's CFG although only one can run. Constant
